@@ -242,3 +242,88 @@ def inject_h(cls: int, pos: int, big: int, cut: int) -> bool:
 
 def known_excluded(c, phys, integ) -> bool:
     return False
+
+
+# ------------------------------------------------------------------------------------------
+# H-HOSTILE (C17): message-structured hostile streams; every entry point must return or raise an
+# ordinary Exception (termination is enforced by the per-path / native replay time limits).
+HOSTILE_IDS = [0, 1, 8, 9, 4096, 4097, 2**32 - 1]
+KINDS = ["options", "options2", "name", "prefix", "datatype", "triple", "quad", "graph_start", "graph_end", "namespace", "empty"]
+DEPTHS = [1, 50, 99, 100, 101]
+LIES = ["none", "shorter", "longer", "huge", "zero"]
+
+
+def nested(depth, leaf):
+    t = leaf
+    for _ in range(depth):
+        t = ("triple", [("bnode", "a"), ("bnode", "b"), t])
+    return t
+
+
+def hostile_row(kind, v, depth, phys):
+    opt = {"stream_name": "", "physical_type": phys, "generalized_statements": 1, "rdf_star": 1, "max_name_table_size": 8,
+           "max_prefix_table_size": 8, "max_datatype_table_size": 8, "logical_type": 0, "version": 1}
+    if kind == "options":
+        return ("options", opt)
+    if kind == "options2":
+        return ("options", dict(opt, max_name_table_size=v, max_prefix_table_size=v, physical_type=(v % 5), version=v % 4))
+    if kind in ("name", "prefix", "datatype"):
+        return (kind, v, "val")
+    iri = ("iri", v, v)
+    obj = nested(depth, ("lit", "x", None, v)) if depth > 1 else ("lit", "x", None, v)
+    if kind == "triple":
+        return ("triple", [iri, None if v == 0 else iri, obj])
+    if kind == "quad":
+        return ("quad", [iri, iri, obj, iri])
+    if kind == "graph_start":
+        return ("graph_start", iri)
+    if kind == "graph_end":
+        return ("graph_end",)
+    if kind == "namespace":
+        return ("namespace", "p", iri)
+    return None
+
+
+def hostile_bytes(kinds, vals, depth, lie, phys, with_options):
+    rows = [("options", hostile_row("options", 0, 1, phys)[1])] if with_options else []
+    frames = []
+    for k, v in zip(kinds, vals):
+        r = hostile_row(k, v, depth, phys)
+        rows.append(r)
+    body = b"".join(wire.f_bytes(1, wire.enc_row(r) if r is not None else b"") for r in rows)
+    n = len(body)
+    declared = {"none": n, "shorter": max(n - 3, 0), "longer": n + 7, "huge": 2**31 - 1, "zero": 0}[lie]
+    return wire.enc_varint(declared) + body
+
+
+def hostile(k2: int, k3: int, v: int, depth: int, lie: int, opt: bool) -> bool:
+    """
+    pre: 0 <= k2 < 11 and 0 <= k3 < 11 and 0 <= v < 7 and 0 <= depth < 5 and 0 <= lie < 5
+    pre: (P["k2"] is None or k2 == P["k2"]) and (P["k3"] is None or k3 == P["k3"])
+    pre: (depth == 0 or v == 1) and (lie == 0 or (v == 1 and depth == 0))
+    post: _
+    """
+    k1 = P["k1"]
+    v1 = v2 = v3 = v
+    integ, phys = P["integ"], P["phys"]
+    try:
+        ks = [alpha.pick(k, KINDS) for k in (k1, k2, k3)]
+        vs = [alpha.pick(v, HOSTILE_IDS) for v in (v1, v2, v3)]
+        d = alpha.pick(depth, DEPTHS)
+        li = alpha.pick(lie, LIES)
+        with notrace():
+            data = hostile_bytes(ks, vs, d, li, phys, bool(opt))
+        ok = True
+        for entry in P["entries"]:
+            got, raised = run_parser(data, integ, entry)
+            # returning or raising an ordinary Exception are both fine; reaching this line means it terminated
+            if raised is not None and not isinstance(raised, Exception):
+                ok = False
+            for it in got:
+                if "BAD" in repr(it):
+                    ok = False  # a fabricated non-term (e.g. None) delivered as data
+        if P.get("twin"):
+            ok = False
+    except Exception:  # noqa: BLE001
+        ok = False
+    return fin(M, ok, k2=k2, k3=k3, v=v, depth=depth, lie=lie, opt=opt)
